@@ -217,7 +217,9 @@ func (w *world) prologue(kind int) (fillers []prefix) {
 	case 1:
 		n = 246 + simrt.Choose("fill.n", 10) // the run itself crosses the switch
 	case 2:
-		n = 256 + simrt.Choose("fill.n", 6) // already switched (or switching at the first Add)
+		// the list is exactly full (the first Add of the run switches, while the
+		// other clients are at their first operations too) or already switched
+		n = []int{256, 257, 256, 259, 256, 261}[simrt.Choose("fill.n", 6)]
 	case 3:
 		n = 200 + simrt.Choose("fill.n", 56)
 	}
@@ -355,6 +357,7 @@ func (w *world) concurrent() {
 	var lookups []lookup
 	writersLeft := nWriters
 	adds := len(fillers)
+	var ownedFillers []prefix
 	for wi := 0; wi < nWriters; wi++ {
 		wi := wi
 		var mine []prefix
@@ -363,13 +366,23 @@ func (w *world) concurrent() {
 				mine = append(mine, p)
 			}
 		}
+		// ... and a few of the prologue's ranges (entries of the list that a
+		// writer may remove while another writer's Add crosses the switch)
+		var myFillers []prefix
+		for i := wi; i < len(fillers) && len(myFillers) < 4; i += nWriters {
+			myFillers = append(myFillers, fillers[i])
+		}
+		ownedFillers = append(ownedFillers, myFillers...)
 		n := 2 + ch("writer.ops", 14)
 		simrt.GoNamed(fmt.Sprintf("writer%d", wi), "harness", func() {
 			for i := 0; i < n; i++ {
 				var p prefix
-				if k := ch("w.pick", 4); k == 0 && wi == 0 {
-					p = filler(300 + ch("w.newfiller", 40)) // fresh ranges push the count over the switch
-				} else {
+				switch k := ch("w.pick", 6); {
+				case k == 0:
+					p = filler(300 + 40*wi + ch("w.newfiller", 40)) // fresh ranges push the count over the switch
+				case k == 1 && len(myFillers) > 0:
+					p = myFillers[ch("w.filler", len(myFillers))]
+				default:
 					p = mine[ch("w.range", len(mine))]
 				}
 				add := ch("w.add", 3) != 0
@@ -400,7 +413,8 @@ func (w *world) concurrent() {
 	}
 	probeSet := boundaries(universe)
 	if len(fillers) > 0 {
-		probeSet = append(probeSet, boundaries([]prefix{fillers[0], fillers[len(fillers)-1], filler(300), filler(320)})...)
+		probeSet = append(probeSet, boundaries([]prefix{fillers[0], fillers[len(fillers)-1], filler(300), filler(320), filler(340), filler(380)})...)
+		probeSet = append(probeSet, boundaries(ownedFillers)...)
 	}
 	lastOf := make([]uint32, nReaders)
 	for ri := 0; ri < nReaders; ri++ {
